@@ -25,7 +25,10 @@ def _realize(x):
         return "<unrealisable>"
 
 
-def _table(sym, nrows, nkeys=3, nfeat=1, feat_vals=2, fixed_keys=None, free2=None):
+ROW_LABELS = {"unique": lambda n: [100 + r for r in range(n)], "repeated": lambda n: [100 + (r % 2) for r in range(n)]}   # 'repeated': two batches glued together
+
+
+def _table(sym, nrows, nkeys=3, nfeat=1, feat_vals=2, fixed_keys=None, free2=None, labels="unique"):
     from models import pd_model
     keys = []
     for r in range(nrows):
@@ -43,7 +46,7 @@ def _table(sym, nrows, nkeys=3, nfeat=1, feat_vals=2, fixed_keys=None, free2=Non
     cols = {"grp": [("k%d" % k) for k in keys]}
     for c in range(nfeat):
         cols[f"x{c}"] = feats[c]
-    return pd_model.DataFrame(cols, index=[100 + r for r in range(nrows)]), keys, feats
+    return pd_model.DataFrame(cols, index=ROW_LABELS[labels](nrows)), keys, feats
 
 
 def _groups(keys):
@@ -63,12 +66,12 @@ def _pc_rows_term(so, feats, rows, rows2=None):
     return so.count_true([same(a, b) for a in rows for b in rows2]), len(rows) * len(rows2)
 
 
-def _body_cond(nrows, nfeat, weighted, by_list):
+def _body_cond(nrows, nfeat, weighted, by_list, labels="unique"):
     def body():
         import math
         from pyrepseq import stats
         from vlib import sym, symops as so
-        df, keys, feats = _table(sym, nrows, nfeat=nfeat)
+        df, keys, feats = _table(sym, nrows, nfeat=nfeat, labels=labels)
         groups = [(k, rows) for k, rows in _groups(keys) if len(rows) > 1]
         on = "x0" if nfeat == 1 else ["x0", "x1"]
         kw = {}
@@ -93,7 +96,7 @@ def _body_cond(nrows, nfeat, weighted, by_list):
     return body
 
 
-def _concrete_table(inputs, nrows, nfeat):
+def _concrete_table(inputs, nrows, nfeat, labels="unique"):
     import pandas as pd
     keys = [int(inputs[f"g{r}"]) for r in range(nrows)]
     cols = {"grp": ["k%d" % k for k in keys]}
@@ -101,7 +104,7 @@ def _concrete_table(inputs, nrows, nfeat):
     for c in range(nfeat):
         feats.append([int(inputs[f"f{c}_{r}"]) for r in range(nrows)])
         cols[f"x{c}"] = feats[-1]
-    return pd.DataFrame(cols, index=[100 + r for r in range(nrows)]), keys, feats
+    return pd.DataFrame(cols, index=ROW_LABELS[labels](nrows)), keys, feats
 
 
 def _pc_rows(feats, rows, rows2=None):
@@ -112,12 +115,12 @@ def _pc_rows(feats, rows, rows2=None):
     return Fraction(sum(1 for a in rows for b in rows2 if same(a, b)), len(rows) * len(rows2))
 
 
-def _replay_cond(nrows, nfeat, weighted, by_list):
+def _replay_cond(nrows, nfeat, weighted, by_list, labels="unique"):
     def replay(inputs):
         import math
         from fractions import Fraction
         from pyrepseq import stats
-        df, keys, feats = _concrete_table(inputs, nrows, nfeat)
+        df, keys, feats = _concrete_table(inputs, nrows, nfeat, labels)
         groups = [(k, rows) for k, rows in _groups(keys) if len(rows) > 1]
         on = "x0" if nfeat == 1 else ["x0", "x1"]
         kw = {}
@@ -459,6 +462,10 @@ def conditions(tier):
         out.append(Condition(f"C13/pc_conditional/rows={nrows}/feat={nfeat}/" + ("weighted" if weighted else "uniform") + ("/bylist" if by_list else ""),
                              _body_cond(nrows, nfeat, weighted, by_list), _replay_cond(nrows, nfeat, weighted, by_list),
                              budget=600 if not T else 3000, models=M, bounds=f"{nrows} rows, symbolic group keys (<= 3 groups), {nfeat} feature column(s)"))
+    for nrows, weighted in [(3, False), (4, True)]:       # repeated row labels: rows are identified by position, never by label
+        out.append(Condition(f"C13/pc_conditional/rows={nrows}/feat=1/" + ("weighted" if weighted else "uniform") + "/repeated-row-labels",
+                             _body_cond(nrows, 1, weighted, False, "repeated"), _replay_cond(nrows, 1, weighted, False, "repeated"),
+                             budget=600 if not T else 3000, models=M, bounds=f"{nrows} rows with row labels 100, 101, 100, ..., symbolic group keys, 1 feature column"))
     for nrows in (3,) + ((4,) if T else ()):
         out.append(Condition(f"C13/pc_conditional/two-keys/rows={nrows}", _body_cond_multikey(nrows), _replay_cond_multikey(nrows),
                              budget=600 if not T else 3000, models=M, bounds=f"{nrows} rows, two grouping columns (string and numeric keys)"))
